@@ -12,8 +12,8 @@ EXTENDS Classify, TLC, Json, IOUtils
 
 Cases == JsonDeserialize(IOEnv.TRACE_FILE)
 
-VARIABLE i
-vars == <<i>>
+VARIABLES i, ok
+vars == <<i, ok>>
 
 Rows(x) == {<<x[k][1], x[k][2]>> : k \in 1..Len(x)}
 
@@ -59,9 +59,11 @@ JudgeStretch(c, k) ==
 
 Judge(c) == \A k \in 1..Len(c.rec) : JudgeStretch(c, k)
 
-Init == i = 1
+Init == i = 1 /\ ok = TRUE
+(* Judge is evaluated as a state function (ok' = ...), not as an action: as  *)
+(* an action its long conjunction overflows TLC's stack                    *)
 Next == /\ i <= Len(Cases)
-        /\ Judge(Cases[i])
+        /\ ok' = Judge(Cases[i])
         /\ i' = i + 1
 Spec == Init /\ [][Next]_vars
 AllConsumed == TLCGet("stats").diameter - 1 = Len(Cases) \/ Len(Cases) = 0
